@@ -41,10 +41,29 @@ def rule_X9(chk, u):
     if target is None:
         raise AnalysisBroken("%s: the loop that extracts the 31 seed bits was not found" % fn["full"])
     env = {seed[0]["id"]: [(0, TOP, "id", 0)]}
+    const_decls = {}
+    for s_ in C.walk_stmt(fn["body"]):
+        if s_.get("k") == "Decl":
+            for d_ in s_["d"]:
+                if d_.get("init") is not None and "const" in (d_.get("t") or ""):
+                    const_decls[d_["id"]] = d_["init"]
 
     def lit(e):
+        """value of a constant integer expression: literals, + - * << and casts of them"""
         e = C.strip_casts(e)
-        return C.const_int(e)
+        v = C.const_int(e)
+        if v is not None:
+            return v
+        if e.get("k") == "Ctor" and len(e.get("a", [])) == 1:
+            return lit(e["a"][0])
+        if e.get("k") == "Bin" and e.get("op") in ("+", "-", "*", "<<"):
+            a, b = lit(e["a"]), lit(e["b"])
+            if a is None or b is None:
+                return None
+            return a + b if e["op"] == "+" else (a - b if e["op"] == "-" else (a * b if e["op"] == "*" else a << b))
+        if e.get("k") == "Ref" and e.get("id") in const_decls:
+            return lit(const_decls[e["id"]])
+        return None
 
     def value(e):
         e = C.strip_casts(e)
